@@ -36,6 +36,7 @@ THEOREMS = [
         "C13_refuted_builder_template",
         "C13_refuted_topic_index",
         "C13_refuted_flow_namespace",
+        "C13_refuted_stream_compress",
     ]
 ]
 
@@ -88,7 +89,7 @@ MANIFEST = dict(
 )
 
 FLAGS = ["q_wr_zero_total", "q_rl_zero_period", "q_sig_no_keystore", "q_adaptor_codec", "q_policy_ref", "q_fallback_nil_resp",
-         "q_null_entry", "q_retry_jitter", "q_builder_template", "q_topic_index", "q_flow_namespace"]
+         "q_null_entry", "q_retry_jitter", "q_builder_template", "q_topic_index", "q_flow_namespace", "q_stream_compress"]
 PANIC = {"": 0, "create": 1, "init": 2, "handle": 3, "other": 4, "crash": 5, "hang": 6}
 
 
